@@ -493,6 +493,7 @@ func c07Adapter(c *Ctx) {
 // ---------------------------------------------------------------- C18
 
 func runC18(c *Ctx) {
+	c18DialRetry(c)
 	p := c.P
 	c.floor("C18.R1", 2)
 	// ---- R1 ----
@@ -1473,4 +1474,63 @@ func ssautilAll(p *Prog) map[*ssa.Function]bool {
 		}
 	}
 	return out
+}
+
+// c18DialRetry (C18.R7): a dial to the server that failed below HTTP (no
+// response at all: refused, reset, handshake cut short, timeout) is reported as
+// retryable, whatever the error value. A listener whose node is lost reconnects
+// through exactly this path, and an aborted handshake on a node that is going
+// away surfaces as a bare io.ErrUnexpectedEOF - classifying by error type turns
+// that into a permanent failure and the listener never reaches a survivor.
+func c18DialRetry(c *Ctx) {
+	p := c.P
+	fn := p.Func("pkg/websocket", "Dial")
+	if fn == nil {
+		c.fail("C18.anchor", "pkg/websocket.Dial", token.NoPos, "not found")
+		return
+	}
+	c.analysed(fnName(fn))
+	var dial *ssa.Call
+	allInstrs(fn, func(i ssa.Instruction) {
+		if cl, ok := i.(*ssa.Call); ok && strings.HasSuffix(commonName(&cl.Call), "gorilla/websocket.Dialer).DialContext") {
+			dial = cl
+		}
+	})
+	if dial == nil {
+		c.fail("C18.R7", fnName(fn)+"/dial", fn.Pos(), "the WebSocket dial was not found")
+		return
+	}
+	ext := func(idx int) func(ssa.Value) bool {
+		return func(v ssa.Value) bool {
+			ex, ok := strip(v).(*ssa.Extract)
+			return ok && ex.Tuple == ssa.Value(dial) && ex.Index == idx
+		}
+	}
+	paths, complete := enumPaths(dial, nil, nil, nil, 600)
+	bad := ""
+	if !complete {
+		bad = "too many paths"
+	}
+	n := 0
+	for _, pa := range paths {
+		if pa.endWhy != "return" || infeasible(pa.facts) {
+			continue
+		}
+		noResp := anyFact(pa.facts, func(f Fact) bool { return cmpFact(f, token.EQL, ext(1), isNilConst) })
+		failed := anyFact(pa.facts, func(f Fact) bool { return cmpFact(f, token.NEQ, ext(2), isNilConst) })
+		if !noResp || !failed {
+			continue
+		}
+		n++
+		rv := returnValues(pa.end.(*ssa.Return))
+		ev := strip(rv[len(rv)-1])
+		if mi, ok := ev.(*ssa.MakeInterface); ok {
+			ev = strip(mi.X)
+		}
+		cl, ok := ev.(*ssa.Call)
+		if !ok || !strings.HasSuffix(commonName(&cl.Call), "pkg/websocket.NewRetryableError") {
+			bad = "a dial that failed without any HTTP response returns a non-retryable error at " + p.pos(pa.end.Pos()) + "; facts " + factStrings(pa.facts)
+		}
+	}
+	c.check(bad == "" && n > 0, "C18.R7", fnName(fn)+"/transport-failures-retryable", dial.Pos(), "every failure without an HTTP response is wrapped in RetryableError", bad)
 }
